@@ -297,6 +297,11 @@ func buildReverseSearchers(
 			// Issue #99: Extract prefix literals for fast path verification
 			// For patterns like (?m)^/.*\.php, prefix is "/" - enables O(1) verification
 			prefixLiterals := extractor.ExtractPrefixes(re)
+			if prefixLiterals != nil && prefixLiterals.IsPartialCoverage() {
+				// Not every alternative is represented (MaxLiterals cut the set): a line
+				// need not start with one of these literals, so they cannot reject lines.
+				prefixLiterals = nil
+			}
 			searcher.SetPrefixLiterals(prefixLiterals)
 			// Patterns that are exactly ^prefix.*suffix need no DFA verification
 			if prefix, suffix, minGap, ok := multilineLiteralShape(re); ok {
